@@ -23,7 +23,10 @@ Oracle clauses (each from the property text / qmail-remote.8, none from the code
      after a failed greeting/HELO/MAIL, and no DATA without an accepted recipient;  g. report(): exactly one report, no NUL
      inside, first letter K/Z/D; K only if exit 0, not crashed, first byte not s/h and a K record precedes any Z/D record;
      r+K->K, r+Z->Z, r+D->D, s+*->Z, h+*->D, lone Z->Z, lone D->D; killed by a signal => Z.
-Left out relative to the design: no libFuzzer twin for C09 (the structure is enumerated instead; non-digit reply codes belong to C20).
+Left out relative to the design: no libFuzzer twin for C09 (the structure is enumerated instead; non-digit reply codes belong to C20);
+multi-line replies whose lines carry DIFFERENT codes are not generated (RFC 5321 forbids them, qmail-remote.8 is silent), so the design's
+mutant "code taken from another line when they differ" is equivalent here; the payload is compared with a reference encoder for CR-free
+bodies only (CR handling is C06's); a failing QUIT write exists only in the in-process player (a real socket does not produce it on demand).
 """
 import os, re, json, time, hashlib, socket, threading, struct
 from lib import vlib, inproc, sandbox
@@ -48,6 +51,8 @@ ASSUMPTIONS = [
     "no recipient accepted: the message report may be Z or D (never K): slack; the per-recipient letters are exact",
     "non-zero exit status of qmail-remote / empty or non-grammar output: Z or D accepted (never K), counted as slack; killed by a signal must give Z",
     "message bodies are CR-free and end with a newline (C06 owns the encoder); the payload is compared with a reference dot-stuffing encoder",
+    "server reply texts never contain the phrase 'Possible duplicate' (the report quotes the server's text, so a server could fake the flag in the "
+    "human-readable part; Hypothesis found exactly that) - excluded by construction",
 ]
 
 PID = "C09"
@@ -379,7 +384,7 @@ OKCODE = {"greet": [220], "helo": [250], "mail": [250, 200, 299], "rcpt": [250, 
 
 text_st = st.one_of(st.binary(max_size=30), st.binary(max_size=30),
                     st.integers(100, 400).map(lambda k: b"t" * k), st.sampled_from([4999, 5000, 5001, 5600]).map(lambda k: b"h" * k)
-                    ).map(lambda b: b.replace(b"\n", b" "))
+                    ).map(lambda b: b.replace(b"\n", b" ").replace(b"Possible duplicate", b"possible duplicate"))
 
 
 @st.composite
@@ -798,8 +803,8 @@ def run(ctx):
     if not only or "inproc" in only:
         t0 = time.time()
         seed = ctx.seed
-        cmds = [[binp, "--enum-smtp", "1", "2", str(ctx.n(16, 120)), str(seed), str(i), str(nsh)] for i in range(nsh)]
-        cmds += [[binp, "--enum-smtp", "3", "3", str(ctx.n(3, 30)), str(seed), str(i), str(nsh)] for i in range(nsh)]
+        cmds = [[binp, "--enum-smtp", "1", "2", str(ctx.n(10, 80)), str(seed), str(i), str(nsh)] for i in range(nsh)]
+        cmds += [[binp, "--enum-smtp", "3", "3", str(ctx.n(2, 20)), str(seed), str(i), str(nsh)] for i in range(nsh)]
         res = inproc.run_shards(cmds)
         structures = 0
         for rc, out in res[:nsh]:
@@ -812,16 +817,16 @@ def run(ctx):
             if m:
                 s3 = max(s3, int(m.group(1)))
         v = inproc.merge_c_stats(ctx, res, "smtp-enum")
-        cmds = [[binp, "--rand-smtp", str(vlib.subseed(seed, PID, "rs", i)), str(ctx.n(250000, 3500000))] for i in range(nsh)]
+        cmds = [[binp, "--rand-smtp", str(vlib.subseed(seed, PID, "rs", i)), str(ctx.n(160000, 2500000))] for i in range(nsh)]
         v += inproc.merge_c_stats(ctx, inproc.run_shards(cmds), "smtp-rand")
         cmds = [[binp, "--enum-report", "4", str(ctx.n(6, 40)), str(seed), str(i), str(nsh)] for i in range(nsh)]
         v += inproc.merge_c_stats(ctx, inproc.run_shards(cmds), "report-enum")
-        cmds = [[binp, "--rand-report", str(vlib.subseed(seed, PID, "rr", i)), str(ctx.n(120000, 1500000))] for i in range(nsh)]
+        cmds = [[binp, "--rand-report", str(vlib.subseed(seed, PID, "rr", i)), str(ctx.n(80000, 1500000))] for i in range(nsh)]
         v += inproc.merge_c_stats(ctx, inproc.run_shards(cmds), "report-rand")
         ctx.notes["inproc_seconds"] = round(time.time() - t0, 1)
         ctx.notes["exhaustive_part"] = ("smtp(): all %d class/disconnect structures for n=1,2 and all %d for n=3 (each instantiated %d / %d times); "
                                         "report(): all letter structures up to 4 records x final NUL present/absent, every exit status and signal for <= 3 records"
-                                        % (structures, s3, ctx.n(16, 120), ctx.n(3, 30)))
+                                        % (structures, s3, ctx.n(10, 80), ctx.n(2, 20)))
         ctx.exhaustive = True
         best = {}
         for line in v:
